@@ -19,7 +19,7 @@ Import ListNotations.
 Require Import TV.Base.EP TV.Base.EPSound TV.Base.Amp TV.Model.Lane TV.Spec.Born TV.gen.Gen_instructions TV.gen.Gen_channel_tables
   TV.Model.GateCheck TV.Model.InstrCheck TV.Model.KrausCheck TV.Proofs.GateProofs TV.Proofs.InstrProofs
   TV.Proofs.CircuitProofs TV.Proofs.CircuitTheorem TV.Proofs.DenseBridge TV.Proofs.KrausSem TV.Proofs.KrausLocal TV.Proofs.KrausTheorem
-  TV.Proofs.KrausGates TV.Proofs.KrausCircuit TV.Proofs.KrausBorn.
+  TV.Proofs.KrausGates TV.Proofs.KrausCircuit TV.Proofs.KrausBorn TV.Proofs.KrausMpp.
 
 (* M MX MY MR MRX MRY x {plain, inverted} x {noiseless, noisy} x {existing lane, fresh lane} x all bits:
    Kraus(reported r, inversion inv, noise e) = projector / projector-and-reprepare onto outcome r xor inv xor e *)
@@ -145,6 +145,33 @@ Proof. exact born_weight. Qed.
 Theorem C01_mpp_is_circuit : forall aux ps inv, forallb (fun pq : pauli * nat => negb (Nat.eqb aux (snd pq))) ps = true ->
   ccircuit_ops (mpp_circuit aux ps inv) = Some (g_mpp aux ps inv qz).
 Proof. exact mpp_is_circuit. Qed.
+(* ... and for products of ANY length that circuit, composed from the documented operators (Stim's H and controlled Paulis, the
+   |0><s| of the reset, the Z projector), IS the projector: the auxiliary lane is set to the outcome o = rec xor inv and the data
+   lanes receive (1 + (-1)^o P)/2, P = the ordered product of the factors, applied to the state with the auxiliary lane read at the
+   silent bit s (at 0 when the auxiliary lane was never used: it then holds |0>, which is the premise below and an invariant of the
+   lane interpreter, C01_unused_lanes_hold_zero). *)
+Theorem C01_mpp_projector :
+  forall (R : Type) (rO rI : R) (radd rmul rsub : R -> R -> R) (ropp : R -> R),
+  ring_theory rO rI radd rmul rsub ropp eq ->
+  forall E : Qc -> R, (forall a b, E (a + b)%Qc = rmul (E a) (E b)) -> E 0%Qc = rI -> E 1%Qc = ropp rI ->
+  forall half : R, radd half half = rI -> forall ta tb tc : Qc,
+  forall (b : bits) (sk : kst R) (aux : nat) (ps : list (pauli * nat)) (inv : bool) (psi : Amp.state R),
+  off aux ps -> (kex R sk aux = false -> forall y, y aux = true -> psi y = rO) ->
+  let s := bit (bsil b) (knsil R sk) in
+  let o := xorb (bit (brec b) (knrec R sk)) inv in
+  let G : Amp.state R := fun y => psi (Amp.upd y aux (if kex R sk aux then s else false)) in
+  cspec R rO rI radd rmul ropp E half ta tb tc b sk (mpp_circuit aux ps inv) psi
+  = fun x => if Bool.eqb (x aux) o
+             then rmul half (radd (G x) (rmul (sgn R rI ropp o) (appP R rO rI radd rmul ropp E half ta tb tc ps G x)))
+             else rO.
+Proof. exact mpp_projector. Qed.
+Theorem C01_unused_lanes_hold_zero :
+  forall (R : Type) (rO rI : R) (radd rmul rsub : R -> R -> R) (ropp : R -> R),
+  ring_theory rO rI radd rmul rsub ropp eq ->
+  forall (E : Qc -> R) (half : R) (ta tb tc : Qc) (n : nat) (b : bits) (ops : list (op nat)),
+  ksupp R rO n (krun R rO rI radd rmul ropp E half ta tb tc b ops (kinit R rO rI n)).
+Proof. intros R rO rI radd rmul rsub ropp Rth E half ta tb tc n b ops. exact (ksupp_run R rO rI radd rmul rsub ropp Rth E half ta tb tc n b ops _ (ksupp_init R rO rI n)). Qed.
+
 Theorem C01_circuit_concat : forall c1 c2 o1 o2, ccircuit_ops c1 = Some o1 -> ccircuit_ops c2 = Some o2 -> ccircuit_ops (c1 ++ c2) = Some (o1 ++ o2).
 Proof. exact ccircuit_ops_app. Qed.
 
